@@ -1406,16 +1406,24 @@ let rec put_bits b i = function
 
 (** val ba_get : ba -> n -> n -> n -> bool list **)
 
-let ba_get b _ a n0 =
-  get_bits b
-    (N.mul (Npos (XO (XO (XO XH)))) (N.div a (Npos (XO (XO (XO XH))))))
-    (N.to_nat n0)
+let ba_get b gs a n0 =
+  let pos = N.sub a gs in
+  if N.eqb (N.modulo pos (Npos (XO (XO (XO XH))))) N0
+  then get_bits b
+         (N.mul (Npos (XO (XO (XO XH)))) (N.div pos (Npos (XO (XO (XO XH))))))
+         (N.to_nat n0)
+  else get_bits b pos (N.to_nat n0)
 
 (** val ba_set : ba -> n -> n -> bool list -> ba **)
 
-let ba_set b _ a bits =
-  put_bits b
-    (N.mul (Npos (XO (XO (XO XH)))) (N.div a (Npos (XO (XO (XO XH)))))) bits
+let ba_set b gs a bits =
+  let pos = N.sub a gs in
+  if (&&) (N.eqb (N.modulo pos (Npos (XO (XO (XO XH))))) N0)
+       (N.eqb (N.modulo (N.of_nat (length bits)) (Npos (XO (XO (XO XH))))) N0)
+  then put_bits b
+         (N.mul (Npos (XO (XO (XO XH)))) (N.div pos (Npos (XO (XO (XO XH))))))
+         bits
+  else put_bits b pos bits
 
 (** val bA : n -> backend **)
 
